@@ -49,6 +49,8 @@ class Module:
         stringEnd)
 
     rule.ignore(cppStyleComment)
+    # Do not expand tabs: default values and include paths are copied verbatim.
+    rule.parseWithTabs()
 
     @staticmethod
     def parseString(s: str) -> ParseResults:
